@@ -257,6 +257,18 @@ def evaluate_terms(mods, terms, wd, nproc):
 
 
 def check(run: common.Run):
+    try:
+        _check(run)
+    except Exception:  # noqa -- fail closed: a harness error is an alarm, never a silent pass or a bare traceback
+        import traceback
+        run.violation({"kind": "harness-error", "detail": traceback.format_exc()[-3000:],
+                       "explanation": "the C15 harness itself failed (unexpected shape of an implementation output?)"},
+                      False)
+        run.coverage.setdefault("obligations", 1)
+        run.coverage.setdefault("discharged", 0)
+
+
+def _check(run: common.Run):
     wd = common.workdir(PID)
     try:
         c15_tables.regenerate()
@@ -559,7 +571,14 @@ def contains_kind(t, kind: str) -> bool:
 
 
 def observed_code(src: str, shape: str, rule: str, text: str, new: str) -> int:
-    """what the rule did to the fixed program shape (see ConstFoldModel.cons_code)"""
+    """what the rule did to the fixed program shape (see ConstFoldModel.cons_code); 99 = anything else"""
+    try:
+        return _observed_code(src, shape, rule, text, new)
+    except Exception:  # noqa -- an output of an unexpected form
+        return 99
+
+
+def _observed_code(src: str, shape: str, rule: str, text: str, new: str) -> int:
     if new == text or _norm(new) == _norm(text):
         return 0
     n = _norm(new)
